@@ -9,7 +9,9 @@ import (
 	"runtime/debug"
 	"strconv"
 	"strings"
+	"syscall"
 	"time"
+	"unsafe"
 
 	"github.com/go-gts/gts"
 	"github.com/go-gts/gts/internal/verifsim/core"
@@ -939,15 +941,27 @@ func (x *c07Run) runScaling(sc *c07Scenario) {
 	x.runTimeScaling(sc)
 }
 
-// minScanTime is the shortest of reps scans of data: the minimum discards
-// what other processes on the machine add to a measurement.
+// threadCPU is the processor time this OS thread has consumed
+// (CLOCK_THREAD_CPUTIME_ID): unlike the wall clock it does not advance while
+// the thread waits for a processor, so an overloaded machine does not stretch it.
+func threadCPU() time.Duration {
+	var ts syscall.Timespec
+	syscall.Syscall(syscall.SYS_CLOCK_GETTIME, 3, uintptr(unsafe.Pointer(&ts)), 0)
+	return time.Duration(ts.Nano())
+}
+
+// minScanTime is the least processor time of reps scans of data, measured on
+// a goroutine locked to its thread: the minimum discards what cache and
+// memory contention add to a measurement.
 func minScanTime(data []byte, reps int) time.Duration {
+	runtime.LockOSThread()
+	defer runtime.UnlockOSThread()
 	best := time.Duration(1 << 62)
 	for i := 0; i < reps; i++ {
 		core.Tick()
-		t0 := time.Now()
+		t0 := threadCPU()
 		scanAll(data, simpipe.Spec{CutAt: -1}, 0)
-		if d := time.Since(t0); d < best {
+		if d := threadCPU() - t0; d < best {
 			best = d
 		}
 	}
@@ -958,11 +972,14 @@ func minScanTime(data []byte, reps int) time.Duration {
 // that allocation cannot see: work that re-reads or re-copies inside one
 // buffer. The stream is scanned at 4N and at 16N units; quadratic work makes
 // the larger scan about 16 times slower, linear work about 4 times. This is
-// the one oracle that reads a real clock. It is made safe against noise by
-// taking the minimum of several scans, by demanding both a ratio far from the
-// linear one and an absolute time far above what a linear scan of that size
-// takes, and by measuring again before reporting; times never enter the event
-// log, the state keys or the digests.
+// the one oracle that reads a real clock - the processor time of its own
+// thread, which an overloaded machine does not stretch (wall-clock time was
+// tried first and raised a false alarm with three checks running at once).
+// It is made safe against the remaining noise by taking the minimum of several
+// scans, by demanding both a ratio far from the linear one and an absolute
+// time far above what a linear scan of that size takes, and by measuring
+// again before reporting; times never enter the event log, the state keys or
+// the digests.
 func (x *c07Run) runTimeScaling(sc *c07Scenario) {
 	small, large := scaledStream(sc.Shape, 4*sc.N), scaledStream(sc.Shape, 16*sc.N)
 	processBoundary()
@@ -979,7 +996,7 @@ func (x *c07Run) runTimeScaling(sc *c07Scenario) {
 	if bad, t1, t2 = verdict(5); !bad {
 		return
 	}
-	x.violate(sc, "superlinear-time", sc.Shape, fmt.Sprintf("%s: scanning %d units (%d bytes) takes %v, %d units (%d bytes) takes %v (minimum of 5 scans each, measured twice): x%.1f for x%.1f input", sc.Shape, 4*sc.N, len(small), t1, 16*sc.N, len(large), t2, float64(t2)/float64(t1+1), float64(len(large))/float64(len(small))))
+	x.violate(sc, "superlinear-time", sc.Shape, fmt.Sprintf("%s: scanning %d units (%d bytes) takes %v, %d units (%d bytes) takes %v (processor time of the scanning thread, minimum of 5 scans each, measured twice): x%.1f for x%.1f input", sc.Shape, 4*sc.N, len(small), t1, 16*sc.N, len(large), t2, float64(t2)/float64(t1+1), float64(len(large))/float64(len(small))))
 }
 
 // ---- engine ----
